@@ -232,7 +232,7 @@ def make_case(ctx, h, prog, opts, ptype, minsz, res):
 def evaluate(ctx, cases, name="cases_e2e"):
     defs = "Definition ecases : list ecase := [\n%s\n].\n" % ";\n".join(c_ecase(c) for c in cases)
     res = coq.run_cases(ctx, name, base.PRE, defs, [
-        ("e_mismatch", "bad_indices e_agrees ecases 0"),
+        ("e_mismatch", "bad_indices (e_agrees %s) ecases 0" % base.cbool(getattr(ctx, "c14_fixed", False))),
         ("e_violations", "bad_indices e_ok ecases 0"),
     ])
     if res is None:
@@ -356,8 +356,10 @@ def run(ctx, objdir, h):
                    % ((-(c["text_addr"] + c["text_size"])) % 4096))
             if ctx.kf.listed("C14", base.KNOWN_KEY):
                 ctx.known_finding(base.KNOWN_KEY, txt, still, {"mode": "e2e", "case": case_json(c), "source": c["source"]})
-            else:
+            elif still:
                 ctx.log("DEFECT-CANDIDATE e2e witness (not listed in known-findings.txt): " + txt)
+            else:
+                ctx.log("e2e trampoline-page witness: program runs untraced (repaired variant)")
     verdict(ctx, cases, res, wit)
 
 
